@@ -291,4 +291,18 @@ PROPS = {
         "level_text": "Exploration: hundreds of thousands of programs (millions of operations) with zero-sized shapes, stored zeros and non-square split points; every step is decided by a definition-level dense model. Right level: input/history property of container types with an exact oracle.",
         "level_note": "Trusts the dense model and the permutation convention (entry (i,j) moves to (p[i], q[j])), which is the library's documented one.",
     },
+    "C16": {
+        "budget_s": {"quick": 120, "thorough": 1500},
+        "floor": {"quick": 20000, "thorough": 500000},
+        "rule": "PolyBase over Var / Var2 / Var3 / MultiVar with usize and isize (Laurent) exponents and coefficients i64, Ratio<i64>, FF<3>, FF<5>, GaussInt<i64>: seeded histories of 5-30 operations on a pool "
+                "(construction from term lists with duplicates and explicit zero terms; +, -, * in four operator forms incl. the *= special cases rhs one / constant / zero and lhs constant; neg; scalar *=; cancellations p+q-q, (p-p)q, (p+q)(p-q), "
+                "products whose terms vanish in F_p); after every step: term set = model (BTreeMap<exponent vector, coeff> updated by definition), no stored zero coefficient, no stored zero exponent, nterms, is_zero, is_one, "
+                "lead_term = own graded-lex maximum, == agrees with model equality for values reached by different histories and for the value rebuilt from its terms; monomial orders on random (and related) quadruples: antisymmetry, reflexivity, "
+                "Equal <=> equal, transitivity, compatibility with multiplication, graded order compares total degree first; eval(p), eval(q), eval(p+q), eval(pq) against BigInt evaluation in 1-3 variables; "
+                "Lc<Free<i32>,R> histories (+, -=, scalar *=, neg, a-a); non-trivial = a cancellation occurred or >= 2 variables; distinct = hash of the history",
+        "assumptions": COMMON_ASSUME + ["which variable a lexicographic order ranks first is a convention and is not judged; the order laws and the 'graded' rule are", "i64 coefficient overflow in products is counted as inconclusive"],
+        "technique": "reference-model monitor: random operation histories on the polynomial / linear-combination types compared after every step with a BTreeMap model; order laws checked on sampled monomials; evaluation against BigInt",
+        "level_text": "Exploration: hundreds of thousands of histories (quick) over 14 (monomial kind, coefficient ring) pairs; every observable of the statement is compared with an exact definition-level model after each step. Right level: input/history property of value types.",
+        "level_note": "Trusts the BTreeMap model and own graded-lex comparison; sampled histories.",
+    },
 }
